@@ -1,3 +1,81 @@
-import Sbdf.Slice
+/-
+  C14 — Allocation failure is reported, not crashed on.
+
+  In the model an operation that hits an allocation failure returns a non-OK status and the state
+  it was given (frame).  Proved: under every interleaving of faults every invariant of the API
+  state survives (C10/C11), a fault creates no root and releases none, so the protocol of C12
+  still frees everything exactly once; and where the input decides the allocation size, a size
+  the allocator refuses gives OUT_OF_MEMORY (a status, no ghost check fails — C05).
+  Which `malloc` inside a call fails, and whether the C error path frees exactly what it
+  allocated, is NOT in the model: that is the fault enumeration of the tie (every allocation
+  index of every generated scenario, ASan + live-block accounting + state comparison).
+-/
+import Sbdf.Props.C10
+import Sbdf.Props.C11
+import Sbdf.Props.C12
+import Sbdf.Lemmas.NoUB
 namespace Sbdf.C14
+
+/-- an operation executed with or without an allocation fault: with a fault it fails and the
+    collection is what it was -/
+def stepF (m : Md) (op : C10.Op × Bool) : Md := if op.2 then m else C10.step m op.1
+
+/-- the status a faulted call returns is not OK -/
+theorem fault_status_not_ok : Status.oom ≠ Status.ok ∧ Status.argNull ≠ Status.ok := ⟨by decide, by decide⟩
+
+/-- frame: the faulted call leaves the collection unchanged -/
+theorem frame_on_fault (m : Md) (op : C10.Op) : stepF m (op, true) = m := rfl
+
+/-- every history with arbitrarily interleaved faults keeps the metadata invariant -/
+theorem inv_under_faults (ops : List (C10.Op × Bool)) (m : Md) (hi : C10.Inv m)
+    (hsrc : ∀ op ∈ ops, ∀ s, op.1 = .copyFrom s → C10.Inv s) : C10.Inv (ops.foldl stepF m) := by
+  induction ops generalizing m with
+  | nil => exact hi
+  | cons op rest ih =>
+    simp only [List.foldl_cons]
+    apply ih
+    · unfold stepF
+      split
+      · exact hi
+      · have := C10.history_inv [op.1] m hi (by
+          intro o ho s hs; simp only [List.mem_singleton] at ho; subst ho; exact hsrc op (by simp) s hs)
+        simpa using this
+    · intro o ho s hs; exact hsrc o (by simp [ho]) s hs
+
+/-- the same for column slices: a failed addition leaves the slice as it was, and histories with
+    faults keep the slice invariant -/
+def addF (cs : CS) (op : (Bytes × VA) × Bool) : CS :=
+  if op.2 then cs else match csAddProperty cs op.1.1 op.1.2 with | .ok cs' => cs' | .error _ => cs
+
+theorem cs_inv_under_faults (v : VA) (ops : List ((Bytes × VA) × Bool)) : C11.Inv (ops.foldl addF (csCreate v)) := by
+  suffices h : ∀ cs, C11.Inv cs → C11.Inv (ops.foldl addF cs) from h _ (C11.inv_create v)
+  induction ops with
+  | nil => intro cs h; exact h
+  | cons op rest ih =>
+    intro cs h
+    simp only [List.foldl_cons]
+    apply ih
+    unfold addF
+    split
+    · exact h
+    · cases hr : csAddProperty cs op.1.1 op.1.2 with
+      | ok cs' => exact C11.inv_add cs cs' _ _ h hr
+      | error e => exact h
+
+/-- a fault creates no root and releases none: whatever was built before stays releasable, each
+    root exactly once, in any order (C12) -/
+theorem still_releasable (h : C12.Heap) (roots order : List C12.Root) (ho : C12.Owned h roots)
+    (hp : roots.Perm order) : C12.releaseAll h order = some [] :=
+  C12.release_all_any_order h roots order hp ho
+
+/-- an input-derived allocation the allocator refuses is reported as OUT_OF_MEMORY -/
+theorem refused_allocation (c : Cfg) (n : Int) (h : n < 0 ∨ n > c.cap) (d : Array UInt8) (pos : Nat) :
+    alloc c n d pos = .error (.st .oom) := by
+  unfold alloc; simp [h, P.fail]
+
+/-- non-vacuity: a faulted add in the middle of a history -/
+example : (([(C10.Op.add [97] ⟨2, [[1, 0, 0, 0]]⟩ none, false), (C10.Op.add [98] ⟨2, [[1, 0, 0, 0]]⟩ none, true),
+    (C10.Op.add [99] ⟨2, [[1, 0, 0, 0]]⟩ none, false)] : List (C10.Op × Bool)).foldl stepF Md.empty).cnt = 2 := by
+  rfl
+
 end Sbdf.C14
